@@ -8,4 +8,4 @@ grep -q "multiboot2-header/tests" "$R" 2>/dev/null && CRATE=multiboot2-header
 grep -q "multiboot2-common/tests" "$R" 2>/dev/null && CRATE=multiboot2-common
 ARGS="-"
 [ -n "${DEMOARGS:-}" ] && ARGS="$DEMOARGS"
-SEEDDIR="$SUB" /verif/bin/seed_verify.sh "$NAME" "$WT" "$CRATE" "$ARGS" "$@" 2>&1 | cut -c1-220 | grep -E "^(demo|==|  key|patch does)"
+SEEDDIR="$SUB" /verif/bin/seed_verify.sh "$NAME" "$WT" "$CRATE" "$ARGS" "$@" 2>&1 | cut -c1-220 | grep -a -E "^(demo|==|  key|patch does)"
